@@ -1,6 +1,458 @@
-import RQ.Model.Push
+import RQ.Lemmas.InodesMem
 /-! Helper lemmas for C15: file-system operations and inode freshness. -/
 namespace RQ.Push
-open RQ
+open RQ RQ.Parse RQ.Write
+
+/-- the world invariant: no fault injection, old inodes intact -/
+def WInv (fs0 : FS) (w : World) : Prop := w.faultAt = none ∧ FS.Inv fs0 w.fs
+
+abbrev WFresh (fs0 : FS) (w : World) (k : Key) : Prop := FS.Fresh fs0.nextIno w.fs k
+
+/-- the file-system effect of an operation -/
+def Op.run (fs : FS) : Op → Except IOErr FS
+  | .removeFile k => fs.removeFile k
+  | .createDirAll k => fs.createDirAll k
+  | .createFile k => fs.createFile k
+  | .setMode k m => .ok (fs.setMode k m)
+  | .write k b => .ok (fs.appendBytes k b)
+  | .removeDir k => fs.removeDir k
+  | .appendOpen k => fs.appendFile k []
+
+theorem op_eq (w : World) (o : Op) (hf : w.faultAt = none) :
+    w.op o = match Op.run w.fs o with
+      | .ok fs => .ok { w with trace := w.trace ++ [o], fs := fs }
+      | .error .notFound => .notFound { w with trace := w.trace ++ [o] }
+      | .error .other => .failed { w with trace := w.trace ++ [o] } := by
+  unfold World.op
+  have : (w.faultAt == some w.trace.length) = false := by rw [hf]; rfl
+  simp only [this]
+  cases o <;> rfl
+
+theorem op_ok {w w' : World} {o : Op} (hf : w.faultAt = none) (e : w.op o = .ok w') :
+    Op.run w.fs o = .ok w'.fs ∧ w'.faultAt = none := by
+  rw [op_eq w o hf] at e
+  split at e
+  · cases e; exact ⟨by assumption, hf⟩
+  · cases e
+  · cases e
+
+theorem op_notFound {w w' : World} {o : Op} (hf : w.faultAt = none) (e : w.op o = .notFound w') :
+    Op.run w.fs o = .error .notFound ∧ w'.fs = w.fs ∧ w'.faultAt = none := by
+  rw [op_eq w o hf] at e
+  split at e
+  · cases e
+  · cases e; exact ⟨by assumption, rfl, hf⟩
+  · cases e
+
+theorem op_failed {w w' : World} {o : Op} (hf : w.faultAt = none) (e : w.op o = .failed w') :
+    w'.fs = w.fs ∧ w'.faultAt = none := by
+  rw [op_eq w o hf] at e
+  split at e
+  · cases e
+  · cases e
+  · cases e; exact ⟨rfl, hf⟩
+
+variable {fs0 : FS} {w w' : World}
+
+theorem inv_failed {o : Op} (h : WInv fs0 w) (e : w.op o = .failed w') : WInv fs0 w' := by
+  obtain ⟨h1, h2⟩ := op_failed h.1 e
+  exact ⟨h2, h1 ▸ h.2⟩
+
+theorem inv_notFound {o : Op} (h : WInv fs0 w) (e : w.op o = .notFound w') : WInv fs0 w' := by
+  obtain ⟨_, h1, h2⟩ := op_notFound h.1 e
+  exact ⟨h2, h1 ▸ h.2⟩
+
+theorem fresh_notFound {o : Op} {k : Key} (h : WInv fs0 w) (hfr : WFresh fs0 w k)
+    (e : w.op o = .notFound w') : WFresh fs0 w' k := by
+  obtain ⟨_, h1, _⟩ := op_notFound h.1 e
+  unfold WFresh; rw [h1]; exact hfr
+
+theorem removeFile_ok {k : Key} (h : WInv fs0 w) (e : w.op (.removeFile k) = .ok w') :
+    WInv fs0 w' ∧ WFresh fs0 w' k := by
+  obtain ⟨h1, h2⟩ := op_ok h.1 e
+  have := FS.removeFile_ok h1
+  unfold WFresh
+  rw [this]
+  exact ⟨⟨h2, this ▸ h.2.sub (FS.sub_erase _ _)⟩, FS.fresh_of_none (FS.lookup_erase_self _ _)⟩
+
+theorem removeFile_notFound {k : Key} (h : WInv fs0 w) (e : w.op (.removeFile k) = .notFound w') :
+    WInv fs0 w' ∧ WFresh fs0 w' k := by
+  obtain ⟨h1, h2, h3⟩ := op_notFound h.1 e
+  refine ⟨⟨h3, h2 ▸ h.2⟩, ?_⟩
+  unfold WFresh; rw [h2]
+  exact FS.fresh_of_none (FS.removeFile_notFound h1)
+
+theorem createDirAll_ok {d : Key} (h : WInv fs0 w) (e : w.op (.createDirAll d) = .ok w') :
+    WInv fs0 w' ∧ ∀ k, WFresh fs0 w k → WFresh fs0 w' k := by
+  obtain ⟨h1, h2⟩ := op_ok h.1 e
+  have hs := FS.createDirAll_ok h1
+  exact ⟨⟨h2, h.2.sub hs⟩, fun k hk => hk.sub hs⟩
+
+theorem removeDir_ok {d : Key} (h : WInv fs0 w) (e : w.op (.removeDir d) = .ok w') : WInv fs0 w' := by
+  obtain ⟨h1, h2⟩ := op_ok h.1 e
+  have := FS.removeDir_ok h1
+  exact ⟨h2, this ▸ h.2.sub (FS.sub_erase _ _)⟩
+
+theorem createFile_ok {k : Key} (h : WInv fs0 w) (hfr : WFresh fs0 w k)
+    (e : w.op (.createFile k) = .ok w') : WInv fs0 w' ∧ WFresh fs0 w' k := by
+  obtain ⟨h1, h2⟩ := op_ok h.1 e
+  obtain ⟨h3, h4⟩ := FS.createFile_ok h.2 hfr h1
+  exact ⟨⟨h2, h3⟩, h4⟩
+
+theorem setMode_ok {k : Key} {m : Nat} (h : WInv fs0 w) (hfr : WFresh fs0 w k)
+    (e : w.op (.setMode k m) = .ok w') : WInv fs0 w' ∧ WFresh fs0 w' k := by
+  obtain ⟨h1, h2⟩ := op_ok h.1 e
+  injection h1 with h1
+  obtain ⟨h3, h4⟩ := FS.setMode_ok m h.2 hfr
+  unfold WFresh WInv
+  rw [← h1]
+  exact ⟨⟨h2, h3⟩, h4⟩
+
+theorem write_ok {k : Key} {b : Bytes} (h : WInv fs0 w) (hfr : WFresh fs0 w k)
+    (e : w.op (.write k b) = .ok w') : WInv fs0 w' ∧ WFresh fs0 w' k := by
+  obtain ⟨h1, h2⟩ := op_ok h.1 e
+  injection h1 with h1
+  obtain ⟨h3, h4⟩ := FS.appendBytes_ok b h.2 hfr
+  unfold WFresh WInv
+  rw [← h1]
+  exact ⟨⟨h2, h3⟩, h4⟩
+
+theorem appendOpen_ok {k : Key} (h : WInv fs0 w) (hfr : WFresh fs0 w k)
+    (e : w.op (.appendOpen k) = .ok w') : WInv fs0 w' ∧ WFresh fs0 w' k := by
+  obtain ⟨h1, h2⟩ := op_ok h.1 e
+  obtain ⟨h3, h4⟩ := FS.appendFile_ok h.2 hfr h1
+  exact ⟨⟨h2, h3⟩, h4⟩
+
+/-- the world carried by a result — on success or at the point of failure — satisfies the invariant -/
+def WRInv {α : Type} (fs0 : FS) (P : α → World) : WR α → Prop
+  | .ok a => WInv fs0 (P a)
+  | .error p => WInv fs0 p.2
+
+theorem writeNew_inv {k : Key} (perms : Option Nat) (content : Bytes) (h : WInv fs0 w)
+    (hfr : WFresh fs0 w k) : WRInv fs0 id (writeNew w k perms content) := by
+  generalize hr : writeNew w k perms content = r
+  unfold writeNew at hr
+  have hwrite : ∀ {w : World} {r : WR World}, WInv fs0 w → WFresh fs0 w k →
+      (match w.op (Op.write k content) with
+        | OpRes.ok w => Except.ok w
+        | OpRes.notFound w => Except.error (Fail.err, w)
+        | OpRes.failed w => Except.error (Fail.err, w)) = r → WRInv fs0 id r := by
+    intro w r h hfr hr
+    split at hr
+    · rename_i hop; subst hr; exact (write_ok h hfr hop).1
+    · rename_i hop; subst hr; exact inv_notFound h hop
+    · rename_i hop; subst hr; exact inv_failed h hop
+  cases perms with
+  | none =>
+    simp only at hr
+    exact hwrite h hfr hr
+  | some p =>
+    simp only at hr
+    split at hr
+    · rename_i heq
+      subst hr
+      split at heq
+      · cases heq
+      · rename_i hop; cases heq; exact inv_notFound h hop
+      · rename_i hop; cases heq; exact inv_failed h hop
+    · rename_i heq
+      split at heq
+      · rename_i hop
+        cases heq
+        obtain ⟨h1, h2⟩ := setMode_ok h hfr hop
+        exact hwrite h1 h2 hr
+      · cases heq
+      · cases heq
+
+theorem saveRejFiles_inv (rejs : List (Bytes × Bytes)) :
+    ∀ {w : World}, WInv fs0 w → WRInv fs0 id (saveRejFiles w rejs) := by
+  induction rejs with
+  | nil => intro w h; unfold saveRejFiles; exact h
+  | cons x rest ih =>
+    intro w h
+    obtain ⟨name, content⟩ := x
+    generalize hr : saveRejFiles w ((name, content) :: rest) = r
+    unfold saveRejFiles at hr
+    split at hr
+    · subst hr; exact h
+    · rename_i k _
+      split at hr
+      · rename_i hop; subst hr; exact inv_failed h hop
+      all_goals
+        rename_i w0 hop
+        have hh : WInv fs0 w0 ∧ WFresh fs0 w0 k := by
+          first | exact removeFile_ok h hop | exact removeFile_notFound h hop
+        obtain ⟨h1, h2⟩ := hh
+        split at hr
+        · rename_i hop2; subst hr; exact ih (inv_notFound h1 hop2)
+        · rename_i hop2; subst hr; exact inv_failed h1 hop2
+        · rename_i w2 hop2
+          obtain ⟨h3, h4⟩ := createFile_ok h1 h2 hop2
+          split at hr
+          · rename_i hop3; subst hr; exact ih (write_ok h3 h4 hop3).1
+          · rename_i hop3; subst hr; exact inv_notFound h3 hop3
+          · rename_i hop3; subst hr; exact inv_failed h3 hop3
+
+theorem saveModifiedFile_inv {name : Bytes} {f : FileSt Bytes} (h : WInv fs0 w)
+    (hex : f.existed = false → ∀ k, safeKey name = some k → fs0.lookup k = none) :
+    WRInv fs0 (·.1) (saveModifiedFile w name f) := by
+  generalize hr : saveModifiedFile w name f = r
+  unfold saveModifiedFile at hr
+  split at hr
+  · subst hr; exact h
+  · rename_i k hk
+    simp only at hr
+    split at hr
+    · rename_i e heq
+      subst hr
+      split at heq
+      · split at heq
+        · cases heq
+        · cases heq
+        · rename_i hop; cases heq; exact inv_failed h hop
+      · cases heq
+    · rename_i w1 heq
+      have hh : WInv fs0 w1 ∧ WFresh fs0 w1 k := by
+        split at heq
+        · split at heq
+          · rename_i hop; cases heq; exact removeFile_ok h hop
+          · rename_i hop; cases heq; exact removeFile_notFound h hop
+          · cases heq
+        · rename_i hne
+          cases heq
+          exact ⟨h, FS.fresh_of_init_none h.2 (hex (by simpa using hne) k hk)⟩
+      obtain ⟨h1, h2⟩ := hh
+      split at hr
+      · subst hr; exact h1
+      · split at hr
+        · rename_i e heq2
+          subst hr
+          split at heq2
+          · split at heq2
+            · cases heq2
+            · rename_i hop; cases heq2; exact inv_notFound h1 hop
+            · rename_i hop; cases heq2; exact inv_failed h1 hop
+          · cases heq2
+        · rename_i w2 heq2
+          have hh2 : WInv fs0 w2 ∧ WFresh fs0 w2 k := by
+            split at heq2
+            · split at heq2
+              · rename_i hop
+                cases heq2
+                obtain ⟨h3, h4⟩ := createDirAll_ok h1 hop
+                exact ⟨h3, h4 k h2⟩
+              · cases heq2
+              · cases heq2
+            · cases heq2; exact ⟨h1, h2⟩
+          obtain ⟨h3, h4⟩ := hh2
+          split at hr
+          · rename_i w3 hop
+            obtain ⟨h5, h6⟩ := createFile_ok h3 h4 hop
+            have hwn := writeNew_inv f.perms (bytesOf f.content) h5 h6
+            split at hr
+            · rename_i heq3; rw [heq3] at hwn; subst hr; exact hwn
+            · rename_i heq3; rw [heq3] at hwn; subst hr; exact hwn
+          · rename_i hop; subst hr; exact inv_notFound h3 hop
+          · rename_i hop; subst hr; exact inv_failed h3 hop
+
+theorem saveAll_inv (mem : Mem) : ∀ {w : World} {dirs : List Key}, WInv fs0 w → MemOK fs0 mem →
+    WRInv fs0 (·.1) (saveAll w mem dirs) := by
+  induction mem with
+  | nil => intro w dirs h _; unfold saveAll; exact h
+  | cons x rest ih =>
+    intro w dirs h hm
+    obtain ⟨cs, name, f⟩ := x
+    generalize hr : saveAll w ((cs, name, f) :: rest) dirs = r
+    unfold saveAll at hr
+    have hx := hm (cs, name, f) (List.mem_cons_self ..)
+    have hrest : MemOK fs0 rest := fun e he => hm e (List.mem_cons_of_mem _ he)
+    have hs := saveModifiedFile_inv (name := name) (f := f) h (by
+      intro hf k hk
+      have h1 : cs = components name := hx.1
+      have := hx.2 hf k
+      simp only at this
+      rw [h1] at this
+      exact this (safeKey_comps hk))
+    split at hr
+    · rename_i heq; rw [heq] at hs; subst hr; exact hs
+    · rename_i heq; rw [heq] at hs; subst hr; exact ih hs hrest
+
+theorem cleanUp_inv (fuel : Nat) : ∀ {w : World} {k : Key}, WInv fs0 w → WRInv fs0 id (cleanUp w fuel k) := by
+  induction fuel with
+  | zero => intro w k h; unfold cleanUp; exact h
+  | succ n ih =>
+    intro w k h
+    generalize hr : cleanUp w (n + 1) k = r
+    unfold cleanUp at hr
+    split at hr
+    · subst hr; exact h
+    · subst hr; exact h
+    · subst hr; exact h
+    · split at hr
+      · rename_i hop; subst hr; exact inv_failed h hop
+      all_goals
+        rename_i w1 hop
+        have h1 : WInv fs0 w1 := by
+          first | exact removeDir_ok h hop | exact inv_notFound h hop
+        split at hr
+        · subst hr; exact h1
+        · subst hr; exact ih h1
+
+theorem cleanAll_inv (ks : List Key) : ∀ {w : World}, WInv fs0 w → WRInv fs0 id (cleanAll w ks) := by
+  induction ks with
+  | nil => intro w h; unfold cleanAll; exact h
+  | cons k ks ih =>
+    intro w h
+    generalize hr : cleanAll w (k :: ks) = r
+    unfold cleanAll at hr
+    have hc := cleanUp_inv (k.length + 1) (k := k) h
+    split at hr
+    · rename_i heq; rw [heq] at hc; subst hr; exact hc
+    · rename_i heq; rw [heq] at hc; subst hr; exact ih hc
+
+theorem saveBackup_inv {patchName name : Bytes} {f : FileSt Bytes} (h : WInv fs0 w) :
+    WRInv fs0 id (saveBackup w patchName name f) := by
+  generalize hr : saveBackup w patchName name f = r
+  unfold saveBackup at hr
+  split at hr
+  · subst hr; exact h
+  · rename_i k _
+    split at hr
+    · rename_i w1 hop
+      have h1 := (createDirAll_ok h hop).1
+      split at hr
+      · rename_i hop2; subst hr; exact inv_failed h1 hop2
+      all_goals
+        rename_i w2 hop2
+        have hh : WInv fs0 w2 ∧ WFresh fs0 w2 k := by
+          first | exact removeFile_ok h1 hop2 | exact removeFile_notFound h1 hop2
+        obtain ⟨h2, h3⟩ := hh
+        split at hr
+        · rename_i w3 hop3
+          obtain ⟨h4, h5⟩ := createFile_ok h2 h3 hop3
+          subst hr
+          exact writeNew_inv _ _ h4 h5
+        · rename_i hop3; subst hr; exact inv_notFound h2 hop3
+        · rename_i hop3; subst hr; exact inv_failed h2 hop3
+    · rename_i hop; subst hr; exact inv_notFound h hop
+    · rename_i hop; subst hr; exact inv_failed h hop
+
+theorem rollbackAndSaveBackups_inv (ss : List Status) : ∀ {w : World} {mem : Mem} {downTo : Nat},
+    WInv fs0 w → WRInv fs0 (·.1) (rollbackAndSaveBackups w mem ss downTo) := by
+  induction ss with
+  | nil => intro w mem d h; unfold rollbackAndSaveBackups; exact h
+  | cons s rest ih =>
+    intro w mem d h
+    generalize hr : rollbackAndSaveBackups w mem (s :: rest) d = r
+    unfold rollbackAndSaveBackups at hr
+    split at hr
+    · subst hr; exact h
+    · split at hr
+      · subst hr; exact h
+      · rename_i mem1 file _
+        have hb := saveBackup_inv (patchName := s.patchName) (name := s.target) (f := file) h
+        split at hr
+        · rename_i heq; rw [heq] at hb; subst hr; exact hb
+        · rename_i w1 heq
+          rw [heq] at hb
+          have h1 : WInv fs0 w1 := hb
+          split at hr
+          · split at hr
+            · subst hr; exact h1
+            · rename_i newName _
+              split at hr
+              · subst hr; exact h1
+              · rename_i nf _
+                have hb2 := saveBackup_inv (patchName := s.patchName) (name := newName) (f := nf) h1
+                split at hr
+                · rename_i heq2; rw [heq2] at hb2; subst hr; exact hb2
+                · rename_i heq2; rw [heq2] at hb2; subst hr; exact ih hb2
+          · subst hr; exact ih h1
+
+theorem rollbackAndSaveBackups_inv' {ss : List Status} {mem : Mem} {downTo : Nat}
+    {r : WR (World × Mem)} (h : WInv fs0 w) (e : rollbackAndSaveBackups w mem ss downTo = r) :
+    WRInv fs0 (·.1) r := e ▸ rollbackAndSaveBackups_inv ss h
+
+theorem applyPatches_inv {cfg : Cfg} {range : List Series.Entry} (h : WInv w.fs w) :
+    WRInv w.fs (·.1) (applyPatches w cfg range) := by
+  generalize hr : applyPatches w cfg range = r
+  unfold applyPatches at hr
+  split at hr
+  · subst hr; exact h
+  · rename_i st final rejs hloop
+    have hm : MemOK w.fs st.mem := applyLoop_ok range (memOK_nil _) hloop
+    split at hr
+    · subst hr; exact h
+    · have hs := saveAll_inv st.mem (dirs := []) h hm
+      split at hr
+      · rename_i heq; rw [heq] at hs; subst hr; exact hs
+      · rename_i w1 dirs heq
+        rw [heq] at hs
+        have hc := cleanAll_inv dirs (w := w1) hs
+        split at hr
+        · rename_i heq2; rw [heq2] at hc; subst hr; exact hc
+        · rename_i w2 heq2
+          rw [heq2] at hc
+          have hj := saveRejFiles_inv rejs (w := w2) hc
+          split at hr
+          · rename_i heq3; rw [heq3] at hj; subst hr; exact hj
+          · rename_i w3 heq3
+            rw [heq3] at hj
+            have h3 : WInv w.fs w3 := hj
+            split at hr
+            · simp only at hr
+              split at hr
+              · rename_i heq4
+                have hb := rollbackAndSaveBackups_inv' h3 heq4
+                subst hr; exact hb
+              · rename_i heq4
+                have hb := rollbackAndSaveBackups_inv' h3 heq4
+                subst hr; exact hb
+            · subst hr; exact h3
+
+theorem saveApplied_inv {names : List Bytes} (h : WInv fs0 w) : WRInv fs0 id (saveApplied w names) := by
+  generalize hr : saveApplied w names = r
+  unfold saveApplied at hr
+  split at hr
+  · rename_i w1 hop
+    have h1 := (createDirAll_ok h hop).1
+    split at hr
+    · rename_i w2 hop2
+      obtain ⟨h2, h3⟩ := appendOpen_ok h1 (.inl rfl) hop2
+      split at hr
+      · subst hr; exact h2
+      · split at hr
+        · rename_i hop3; subst hr; exact (write_ok h2 h3 hop3).1
+        · rename_i hop3; subst hr; exact inv_notFound h2 hop3
+        · rename_i hop3; subst hr; exact inv_failed h2 hop3
+    · rename_i hop2; subst hr; exact inv_notFound h1 hop2
+    · rename_i hop2; subst hr; exact inv_failed h1 hop2
+  · rename_i hop; subst hr; exact inv_notFound h hop
+  · rename_i hop; subst hr; exact inv_failed h hop
+
+theorem pushRange_inv {cfg : Cfg} {range : List Series.Entry} (h : WInv w.fs w) :
+    WInv w.fs (pushRange cfg w range).2 := by
+  generalize hr : pushRange cfg w range = r
+  unfold pushRange at hr
+  have ha := applyPatches_inv (cfg := cfg) (range := range) h
+  split at hr
+  · rename_i heq; rw [heq] at ha; subst hr; exact ha
+  · rename_i heq; rw [heq] at ha; subst hr; exact ha
+  · rename_i w1 final heq
+    rw [heq] at ha
+    have h1 : WInv w.fs w1 := ha
+    split at hr
+    · subst hr; exact h1
+    · have hs := saveApplied_inv (names := (range.take final).map (·.name)) h1
+      split at hr
+      · rename_i heq2; rw [heq2] at hs; subst hr; exact hs
+      · rename_i heq2; rw [heq2] at hs; subst hr; exact hs
+
+theorem push_inv {cfg : Cfg} (h : WInv w.fs w) : WInv w.fs (push cfg w).2 := by
+  unfold push
+  split
+  · exact h
+  · exact h
+  · exact pushRange_inv h
 
 end RQ.Push
